@@ -251,7 +251,7 @@ func (tw *TumblingWindow) Add(data any) {
 		case tw.config.AllowedLateness > 0:
 			placed := false
 			for _, info := range tw.triggeredWindows {
-				if info.slot.Contains(eventTime) {
+				if info.slot.Contains(eventTime) && tw.lateUpdateAllowedLocked(info) {
 					tw.handleLateData(eventTime, tw.config.AllowedLateness)
 					placed = true
 					break
@@ -602,11 +602,22 @@ func (tw *TumblingWindow) closeExpiredWindows(watermarkTime time.Time) {
 	}
 }
 
+// lateUpdateAllowedLocked reports whether a triggered window is still inside its allowed lateness
+// at the CURRENT watermark. closeExpiredWindows removes expired entries only when the trigger
+// goroutine gets to process a watermark; during a burst the watermark can already be past
+// closeTime while the entry is still present, and a too-late row must not re-open the window.
+func (tw *TumblingWindow) lateUpdateAllowedLocked(info *triggeredWindowInfo) bool {
+	if tw.watermark == nil {
+		return true
+	}
+	return tw.watermark.GetCurrentWatermark().Before(info.closeTime)
+}
+
 // handleLateData handles late data that arrives within allowedLateness
 func (tw *TumblingWindow) handleLateData(eventTime time.Time, allowedLateness time.Duration) {
 	// Find which triggered window this late data belongs to
 	for _, info := range tw.triggeredWindows {
-		if info.slot.Contains(eventTime) {
+		if info.slot.Contains(eventTime) && tw.lateUpdateAllowedLocked(info) {
 			// This late data belongs to a triggered window that's still open
 			// Trigger window again with updated data (late update)
 			resultData := tw.extractLateUpdateDataLocked(info.slot)
